@@ -7,6 +7,9 @@ From CB Require Import Gen Machine MachineFacts.
 Import ListNotations.
 Open Scope Z_scope.
 
+(* computed witnesses and examples run the instance that publishes the records [rec_of] *)
+#[local] Existing Instance std_rec.
+
 Definition cfg2 (wf rf : option ord) : cfg := mkcfg Acq Rel wf Rel Acq Acq rf Acq 2 [0;1]%nat [0;1]%nat 5.
 
 (* the torn read: generation 2 (event 8), cell 0 of publication 1 (event 6), cell 1 of
@@ -52,11 +55,16 @@ Proof. split; vm_compute; reflexivity. Qed.
    generation does not return to a value a reader may still hold (known finding C02-aba). *)
 From CB Require Import SeqlockInv GenCyc SeqlockRA.
 
+(* [RF]: what the daemon publishes - any function from the number of the write() call to a record;
+   the theorems of this section hold for all of them (the protocol never looks at the content) *)
+Section General.
+Context {RF : RecFun}.
+
 Theorem C02_RA : forall c ts m o, safe_cfg c = true -> Forall real_token ts ->
   m_run (m_init c) ts = (m, o) -> (Z.of_nat (m_nrec m) < 32767)%Z ->
   forall j ret rec, In (ORet j ret rec) o -> ret <> RetErr ->
     rec = repeat 0%Z (c_cells c) \/
-    exists a q e, (0 < a)%nat /\ ev (w_log (m_w m)) q = Some e /\ e_kind e = KEven /\ e_att e = a /\ rec = rec_of (c_cells c) a.
+    exists a q e, (0 < a)%nat /\ ev (w_log (m_w m)) q = Some e /\ e_kind e = KEven /\ e_att e = a /\ rec = recf (c_cells c) a.
 Proof.
   intros c ts m o Hs Hts R Hn j ret rec Hin Hne.
   destruct (m_run_inv c Hs ts (m_init c) m o (MInv_init c) Hts R Hn) as (_ & _ & _ & H).
@@ -74,7 +82,7 @@ Qed.
 Theorem C02_accept_is_one_completed_write : forall c L r ch r' it,
   safe_cfg c = true -> LogInv (c_cells c) L -> GenCyc L -> window_ok L r -> RInv c L r ->
   r_step c L r ch = Some (r', it, Some RetFresh) ->
-  exists a q e, (0 < a)%nat /\ ev L q = Some e /\ e_kind e = KEven /\ e_att e = a /\ r_cache r' = rec_of (c_cells c) a.
+  exists a q e, (0 < a)%nat /\ ev L q = Some e /\ e_kind e = KEven /\ e_att e = a /\ r_cache r' = recf (c_cells c) a.
 Proof. exact r_step_accept. Qed.
 
 (* ---------------------------------------------------------------------------------------------
@@ -115,6 +123,8 @@ Qed.
 Theorem C02_window_values_distinct : forall k1 k2, (0 < k1)%nat -> (k1 <= k2)%nat ->
   (Z.of_nat k2 < Z.of_nat k1 + 32767)%Z -> gv k1 = gv k2 -> k1 = k2.
 Proof. exact gv_inj_window. Qed.
+
+End General.
 
 (* non-vacuity: the configuration measured from the code is safe, and a run with crashes, restarts
    and two readers returns records 1 and 3 *)
